@@ -1,18 +1,33 @@
 (* C10 - associations end cleanly and the agent always stops.  Statements only.
 
-   System: Model/Teardown.v.  `init cfg ev` = the agent with the associations `cfg` (each with its session
-   list, heartbeat monitor on/off, already established or arriving with a first datagram) and the pending
-   environment events `ev` (datagrams, read timeouts, heartbeat failures, the stop signal); a schedule is a list
-   of thread ids (with the select alternative taken) and environment firings; `run` skips what is not enabled,
-   so the theorems below quantify over EVERY interleaving of every trigger with every other one. *)
+   System: Model/Teardown.v (the code after the repairs 520435c, 77b0dce, 66b822f).  `init cfg ev` = the agent
+   with the associations `cfg` (each with its session list, heartbeat monitor on/off, already established or
+   arriving with a first datagram) and the pending environment events `ev` (datagrams, read timeouts, heartbeat
+   failures, the stop signal); a schedule is a list of thread ids (with the select alternative taken) and
+   environment firings; `run` skips what is not enabled, so the theorems quantify over EVERY interleaving of every
+   trigger - Stop included - with every other one. *)
 From Coq Require Import NArith String List Bool Arith.
-From UPF Require Import Base.LTS Model.Teardown Proofs.TeardownInv Proofs.TeardownProofs Proofs.TeardownForget Proofs.TeardownLive Proofs.TeardownBounded
-  Proofs.TeardownB1 Proofs.TeardownB2 Proofs.TeardownB3.
+From UPF Require Import Base.LTS Model.Teardown Proofs.TeardownInv Proofs.TeardownProofs Proofs.TeardownStop
+  Proofs.TeardownForget Proofs.TeardownLive Proofs.TeardownBounded
+  Proofs.TeardownB1 Proofs.TeardownB2 Proofs.TeardownB3 Proofs.TeardownB4 Proofs.TeardownB5 Proofs.TeardownB6
+  Proofs.TeardownB7.
 Import ListNotations.
 Open Scope nat_scope.
 
-(* ------------------------------------------------------------------ full statements (every n, every configuration
-   including Stop, every schedule) *)
+(* ------------------------------------------------------------------ full statements: every n, every configuration,
+   every set of triggers INCLUDING Stop, every schedule *)
+
+(* no panic: no channel is closed twice, and nobody sends on pConnDone after the node has closed it *)
+Theorem C10_safe : forall cfg ev sch, s_panic (run (init cfg ev) sch) = None.
+Proof. exact safe_all. Qed.
+Print Assumptions C10_safe.
+
+Example C10_safe_inhabited :
+  is_done (nth 0 (s_asc (fst (forced false 500 [ACfg [1%N; 2%N] true None; ACfg [3%N] false None]
+                                     [rel 0; EStop; ETimeout 1]))) assoc0) = true
+  /\ n_main (s_node (fst (forced false 500 [ACfg [1%N; 2%N] true None; ACfg [3%N] false None]
+                                 [rel 0; EStop; ETimeout 1]))) = true.
+Proof. vm_compute. split; reflexivity. Qed.
 
 (* no session is ever deleted from the datapath more than once *)
 Theorem C10_once_at_most : forall cfg ev sch i x,
@@ -29,33 +44,44 @@ Theorem C10_once : forall cfg ev sch i c a,
 Proof. exact ended_exactly_once. Qed.
 Print Assumptions C10_once.
 
-(* whatever happens, no channel is closed twice: the ONLY panic the teardown code can raise is the send on the
-   closed pConnDone (the shape of F21) *)
-Theorem C10_safe_only_one_panic : forall cfg ev sch site,
-  s_panic (run (init cfg ev) sch) = Some site -> site = "send on closed channel"%string.
-Proof. exact only_panic_is_send_on_closed. Qed.
-Print Assumptions C10_safe_only_one_panic.
+(* when node.done is closed - the earliest moment at which Done() can return and main can exit - every connection
+   the node ever created has removed all its sessions from the datapath (in order, each once: a_del = the session
+   list) and is gone from pConns; a peer that was never accepted was never touched *)
+Theorem C10_once_at_exit : forall cfg ev sch i c a,
+  cclosed (n_done (s_node (run (init cfg ev) sch))) = true ->
+  nth_error cfg i = Some c -> nth_error (s_asc (run (init cfg ev) sch)) i = Some a ->
+  in_map (run (init cfg ev) sch) i = false
+  /\ ((a_del a = c_sess c /\ a_store a = []) \/ (crt a = false /\ a_del a = [] /\ a_store a = c_sess c)).
+Proof. exact clean_at_exit. Qed.
+Print Assumptions C10_once_at_exit.
 
-(* ------------------------------------------------------------------ C10_safe: refuted in general, proved without Stop *)
-Theorem C10_safe_refuted : exists cfg ev sch, panicked (run (init cfg ev) sch) = true.
-Proof. exists (one_live [7%N]), [EStop], w_send_closed. vm_compute. reflexivity. Qed.
-Print Assumptions C10_safe_refuted.
+(* forgotten, whatever the first datagram of the peer was (a release included): once the association has ended
+   and its completion is no longer queued on pConnDone, its address is not in pConns *)
+Theorem C10_forgotten : forall cfg ev sch i a,
+  nth_error (s_asc (run (init cfg ev) sch)) i = Some a -> a_once a = ODone ->
+  ~ In (N.of_nat i) (cbuf (n_pcd (s_node (run (init cfg ev) sch)))) ->
+  in_map (run (init cfg ev) sch) i = false.
+Proof. exact forgotten_all. Qed.
+Print Assumptions C10_forgotten.
 
-(* release / second release / in-flight requests / read timeout / heartbeat failure / first datagrams of new
-   peers, in any number, combination and interleaving, any number of associations: no panic *)
-Theorem C10_safe_partial : forall cfg ev sch, no_stop ev -> s_panic (run (init cfg ev) sch) = None.
-Proof. intros. apply no_panic_without_stop. assumption. Qed.
-Print Assumptions C10_safe_partial.
+(* ------------------------------------------------------------------ while the agent is not being stopped *)
+(* ... the same peer can associate afresh: the listening socket is open and handleNewPeers does not drop it *)
+Theorem C10_forgotten_fresh_setup : forall cfg ev sch i a,
+  no_stop ev -> nth_error (s_asc (run (init cfg ev) sch)) i = Some a -> a_once a = ODone ->
+  cbuf (n_pcd (s_node (run (init cfg ev) sch))) = [] ->
+  in_map (run (init cfg ev) sch) i = false /\ fresh_setup_processed (run (init cfg ev) sch) i = true.
+Proof. exact fresh_setup_without_stop. Qed.
+Print Assumptions C10_forgotten_fresh_setup.
 
-Example C10_safe_partial_inhabited :
-  no_stop [rel 0; rel 0; EDeliver 1 DOther; ETimeout 1; EHbFail 2] /\
-  is_done (nth 0 (s_asc (fst (forced false 500 [ACfg [1%N; 2%N] true None; ACfg [3%N] false None; ACfg [] true None]
-                                       [rel 0; rel 0; EDeliver 1 DOther; ETimeout 1; EHbFail 2]))) assoc0) = true.
-Proof. vm_compute. split; reflexivity. Qed.
+(* ... and the channel IS empty whenever the node's loop cannot move *)
+Theorem C10_forgotten_drained : forall cfg ev sch,
+  no_stop ev -> step (run (init cfg ev) sch) (TNode 0) = None ->
+  cbuf (n_pcd (s_node (run (init cfg ev) sch))) = [].
+Proof. exact quiet_buffer_empty. Qed.
+Print Assumptions C10_forgotten_drained.
 
-(* ------------------------------------------------------------------ C10_isolated *)
 (* an established association that receives nothing and is not timed out is bit-for-bit unchanged, whatever
-   happens to the others (no Stop: Stop is a trigger for every association) *)
+   happens to the others (Stop is a trigger for every association, hence the guard) *)
 Theorem C10_isolated : forall cfg ev j c sch,
   no_stop ev -> untouched ev j -> nth_error cfg j = Some c -> c_first c = None ->
   nth_error (s_asc (run (init cfg ev) sch)) j = Some (init_assoc c).
@@ -66,103 +92,61 @@ Example C10_isolated_inhabited :
   untouched [rel 0; ETimeout 0; EHbFail 2] 1 /\ no_stop [rel 0; ETimeout 0; EHbFail 2].
 Proof. split; [intros e [<-|[<-|[<-|[]]]]; discriminate | reflexivity]. Qed.
 
-(* ------------------------------------------------------------------ C10_forgotten *)
-(* refuted: first datagram of a new peer is a release -> the dead connection stays in pConns (F41) *)
-Theorem C10_forgotten_refuted : exists cfg ev sch,
-  let s := run (init cfg ev) sch in
-  terminal s = true /\ panicked s = false /\ in_map s 0 = true /\ fresh_setup_processed s 0 = false
-  /\ exists a, nth_error (s_asc s) 0 = Some a /\ a_once a = ODone.
-Proof.
-  exists [ACfg [7%N] false (Some DRelease)], [], w_first_release. vm_compute.
-  repeat split. eexists. split; reflexivity.
-Qed.
-Print Assumptions C10_forgotten_refuted.
-
-(* without Stop, every n, every schedule: an established association whose Shutdown completed is, as soon as the
-   node has drained pConnDone, no longer in pConns, and a fresh Setup from its address is processed *)
-Theorem C10_forgotten_partial : forall cfg ev sch i c a,
-  no_stop ev -> nth_error cfg i = Some c -> c_first c = None ->
-  nth_error (s_asc (run (init cfg ev) sch)) i = Some a -> a_once a = ODone ->
-  cbuf (n_pcd (s_node (run (init cfg ev) sch))) = [] ->
-  in_map (run (init cfg ev) sch) i = false /\ fresh_setup_processed (run (init cfg ev) sch) i = true.
-Proof. exact forgotten_without_stop. Qed.
-Print Assumptions C10_forgotten_partial.
-
-(* ... and the channel IS empty whenever the node's loop cannot move *)
-Theorem C10_forgotten_partial_drained : forall cfg ev sch,
-  no_stop ev -> step (run (init cfg ev) sch) (TNode 0) = None ->
-  cbuf (n_pcd (s_node (run (init cfg ev) sch))) = [].
-Proof. exact quiet_buffer_empty. Qed.
-Print Assumptions C10_forgotten_partial_drained.
-
-(* ------------------------------------------------------------------ no deadlock / termination *)
-(* refuted under Stop: the node ranges over pConnDone which nobody closes; Done() never returns (F21) *)
-Theorem C10_no_deadlock_refuted : exists cfg ev sch,
-  let s := run (init cfg ev) sch in
-  terminal s = true /\ dead s = false /\ t_st (n_stop (s_node s)) = TRunning
-  /\ cclosed (n_done (s_node s)) = false.
-Proof.
-  exists (one_live []), [EStop], w_range_hang. destruct stop_range_hang as (H1 & H2 & H3 & _ & H5). auto.
-Qed.
-Print Assumptions C10_no_deadlock_refuted.
-
-(* a fair schedule cannot help: the state above is terminal, so Stop does not terminate *)
-Theorem C10_stop_terminates_refuted : exists cfg ev sch,
-  In EStop ev /\ let s := run (init cfg ev) sch in
-  (forall l, step s l = None) /\ dead s = false /\ cclosed (n_done (s_node s)) = false.
-Proof.
-  exists (one_live []), [EStop], w_range_hang. split; [left; reflexivity|].
-  destruct stop_range_hang as (H1 & H2 & _ & _ & H5). cbv zeta. repeat split; auto.
-  intros l. destruct (step (run (init (one_live []) [EStop]) w_range_hang) l) eqn:E; [|reflexivity].
-  exfalso. apply labels_cover in E as Hin.
-  unfold terminal in H1. apply negb_true_iff in H1.
-  assert (Hx : existsb (enabled (run (init (one_live []) [EStop]) w_range_hang))
-                 (labels (run (init (one_live []) [EStop]) w_range_hang)) = true).
-  { apply existsb_exists. exists l. split; [exact Hin|]. unfold enabled. rewrite E. reflexivity. }
-  congruence.
-Qed.
-Print Assumptions C10_stop_terminates_refuted.
-
-(* refuted under Stop: the process exits while the sessions of a live association are still installed (F21) *)
-Theorem C10_once_refuted_at_exit : exists cfg ev sch,
-  let s := run (init cfg ev) sch in
-  n_main (s_node s) = true /\ panicked s = false /\ deleted s 0 7%N = 0.
-Proof.
-  exists (one_live [7%N]), [EStop], w_exit_early. destruct stop_exit_before_cleanup as (_ & H2 & H3 & H4 & _). auto.
-Qed.
-Print Assumptions C10_once_refuted_at_exit.
-
-(* partial, EVERY number of established associations, every session list, every combination of release / second
-   release / in-flight request / read timeout / heartbeat failure, EVERY schedule (no Stop): whenever no thread can
-   move, the state is healthy - every association is either completely gone (all goroutines returned) or waits
-   for input with nothing half-done (nobody inside Shutdown), and the node waits in its select *)
-Theorem C10_no_deadlock_partial : forall cfg ev sch,
+(* no deadlock, EVERY number of established associations, every combination of release / second release /
+   in-flight request / read timeout / heartbeat failure, EVERY schedule: whenever no thread can move, every
+   association is either completely gone (all goroutines returned) or waits for input with nobody inside
+   Shutdown, and the node waits in its select *)
+Theorem C10_no_deadlock_without_stop : forall cfg ev sch,
   no_stop ev -> all_established cfg ->
   (forall l, In l (thread_labels false (run (init cfg ev) sch)) -> step (run (init cfg ev) sch) l = None) ->
   quiescent_ok (run (init cfg ev) sch) = true.
 Proof. exact no_deadlock_without_stop. Qed.
-Print Assumptions C10_no_deadlock_partial.
+Print Assumptions C10_no_deadlock_without_stop.
 
-(* partial, decided by the reflective explorer (explore_sound) on the instances below - EVERY schedule of each:
-   no panic; whenever no thread can move the state is healthy (ended associations completely gone and - if they
-   were established - forgotten by the node, live ones waiting for input, nothing blocked inside Shutdown);
-   and when nothing at all can move every association that was given a reason to end has ended.
-   Bounds: n <= 2 associations, <= 2 sessions each, no Stop. *)
+(* ------------------------------------------------------------------ decided by the reflective explorer
+   (Proofs/TeardownBounded.v explore_sound), EVERY schedule of each instance; n <= 2 associations, <= 2 sessions.
+   `good` (Proofs/TeardownBounded.v): no panic, and
+   - with Stop among the events: a state in which nothing can move is one where Done() has returned and main has
+     exited - Stop completes on every schedule, there is no deadlock -, and whenever node.done is closed every
+     connection the node created has deleted exactly its sessions and is out of pConns;
+   - without Stop: a state in which no thread can move is healthy and has forgotten the ended associations, and when
+     nothing at all can move every association that was given a reason to end has ended. *)
 Definition C10_instances : list (list acfg * list env) :=
-  [(cfg1, ev1); (cfg2, ev2); (cfg3, ev3); (cfg4, ev4)].
+  [(cfg1, ev1); (cfg2, ev2); (cfg3, ev3); (cfg4, ev4);
+   (cfg5, ev5a); (cfg5, ev5b); (cfg5, ev5c); (cfg5, ev5d); (cfg6, [EStop]); (cfg7, [EStop]);
+   (cfg4, ev8); (cfg9, ev8); (cfg10, ev10)].
 
-Theorem C10_no_deadlock_partial_bounded : forall cfg ev, In (cfg, ev) C10_instances ->
+Theorem C10_no_deadlock_bounded : forall cfg ev, In (cfg, ev) C10_instances ->
   forall s, reach (init cfg ev) s -> good cfg ev s = true.
 Proof.
-  intros cfg ev [H|[H|[H|[H|[]]]]]; injection H as <- <-; eapply instance_sound;
-    [apply inst1_ok | apply inst2_ok | apply inst3_ok | apply inst4_ok].
+  intros cfg ev H. unfold C10_instances in H.
+  destruct H as [H|H]; [injection H as <- <-; exact (instance_sound fuel_1m cfg1 ev1 inst1_ok)|].
+  destruct H as [H|H]; [injection H as <- <-; exact (instance_sound fuel_1m cfg2 ev2 inst2_ok)|].
+  destruct H as [H|H]; [injection H as <- <-; exact (instance_sound fuel_1m cfg3 ev3 inst3_ok)|].
+  destruct H as [H|H]; [injection H as <- <-; exact (instance_sound fuel_1m cfg4 ev4 inst4_ok)|].
+  destruct H as [H|H]; [injection H as <- <-; exact (instance_sound fuel_1m cfg5 ev5a inst5a_ok)|].
+  destruct H as [H|H]; [injection H as <- <-; exact (instance_sound fuel_1m cfg5 ev5b inst5b_ok)|].
+  destruct H as [H|H]; [injection H as <- <-; exact (instance_sound fuel_1m cfg5 ev5c inst5c_ok)|].
+  destruct H as [H|H]; [injection H as <- <-; exact (instance_sound fuel_1m cfg5 ev5d inst5d_ok)|].
+  destruct H as [H|H]; [injection H as <- <-; exact (instance_sound fuel_1m cfg6 [EStop] inst6_ok)|].
+  destruct H as [H|H]; [injection H as <- <-; exact (instance_sound fuel_1m cfg7 [EStop] inst7_ok)|].
+  destruct H as [H|H]; [injection H as <- <-; exact (instance_sound fuel_1m cfg4 ev8 inst8_ok)|].
+  destruct H as [H|H]; [injection H as <- <-; exact (instance_sound fuel_1m cfg9 ev8 inst9_ok)|].
+  destruct H as [H|H]; [injection H as <- <-; exact (instance_sound fuel_2m cfg10 ev10 inst10_ok)|].
+  destruct H.
 Qed.
-Print Assumptions C10_no_deadlock_partial_bounded.
+Print Assumptions C10_no_deadlock_bounded.
 
-(* bounded termination without Stop, by exhaustive levels: every schedule of enabled steps of instance 1 has
-   fewer than 28 steps, of instance 4 (two associations) fewer than 35 *)
-Theorem C10_terminates_partial_bounded :
+(* stopping completes in bounded time: every schedule of enabled steps is shorter than the bound (exhaustive
+   levels).  Without Stop: one association, all triggers < 28; two associations < 35.  With Stop: one association
+   with a release racing Stop < 39; Stop with two live associations < 47. *)
+Theorem C10_stop_terminates_bounded :
   (forall sch s, run_strict (init cfg1 ev1) sch = Some s -> List.length sch < 28) /\
-  (forall sch s, run_strict (init cfg4 ev4) sch = Some s -> List.length sch < 35).
-Proof. split; [apply level_bound; exact inst1_terminates | apply level_bound; exact inst4_terminates]. Qed.
-Print Assumptions C10_terminates_partial_bounded.
+  (forall sch s, run_strict (init cfg4 ev4) sch = Some s -> List.length sch < 35) /\
+  (forall sch s, run_strict (init cfg5 ev5b) sch = Some s -> List.length sch < 39) /\
+  (forall sch s, run_strict (init cfg4 [EStop]) sch = Some s -> List.length sch < 47).
+Proof.
+  repeat split; apply level_bound;
+    [exact inst1_terminates | exact inst4_terminates | exact inst5b_terminates | exact inst8_terminates].
+Qed.
+Print Assumptions C10_stop_terminates_bounded.
